@@ -1,5 +1,5 @@
 (* C01/C02 — finite exhaustive sweeps of the parser model (vm_compute), used
-   for the [_partial] theorems and the [_refuted] witness. *)
+   for the [_partial] theorems and the examples. *)
 From verif Require Import lib.Base lib.Utf8 model.C01_Parse model.C01 model.C02 proofs.C01_proofs.
 Open Scope nat_scope.
 
@@ -27,11 +27,11 @@ Definition alphabet16 : bytes :=
 
 Definition pr0 : N -> bool := fun r => N.eqb r 233 || N.eqb r 65533.
 
-(* the model terminates within its fuel and returns a lossless tree (relaxed
-   for the recorded Redir defect) with all errors in range *)
+(* the model terminates within its fuel and returns a lossless tree with all
+   errors in range *)
 Definition ok_C01 (s : bytes) : bool :=
   match parse_model pr0 s with
-  | Some (t, es) => check_C01_gen true s t es
+  | Some (t, es) => check_C01 s t es
   | None => false
   end.
 
@@ -78,7 +78,7 @@ Definition in_sweep (s : bytes) : Prop :=
   In s (strings_le alphabet25 3) \/ In s (strings_le alphabet16 4).
 
 Lemma sweep_total s : in_sweep s ->
-  exists t es, parse_model pr0 s = Some (t, es) /\ check_C01_gen true s t es = true.
+  exists t es, parse_model pr0 s = Some (t, es) /\ check_C01 s t es = true.
 Proof.
   intros [H|H]; [pose proof sweep_C01_25_3 as S|pose proof sweep_C01_16_4 as S];
     rewrite forallb_forall in S; specialize (S s H); unfold ok_C01 in S;
@@ -91,23 +91,14 @@ Proof.
     rewrite forallb_forall in S; exact (S s H).
 Qed.
 
-(* "a 2>b": the Redir node covers [2,5) = "2>b" but its text is ">b" *)
-Definition redir_witness : bytes := [97; 32; 50; 62; 98]%N.
-Lemma redir_witness_fails :
-  match parse_model pr0 redir_witness with
-  | Some (t, es) => check_C01 redir_witness t es = false /\ check_C01_gen true redir_witness t es = true
+(* "a 2>b": the Redir node covers [2,5) and its text is "2>b" *)
+Definition redir_example : bytes := [97; 32; 50; 62; 98]%N.
+Lemma redir_example_ok :
+  match parse_model pr0 redir_example with
+  | Some (t, es) => check_C01 redir_example t es = true /\ es = []
   | None => False
   end.
 Proof. vm_compute. split; reflexivity. Qed.
-
-Lemma node_text_is_slice_refuted :
-  exists src t es, parse_model pr0 src = Some (t, es) /\ ~ Spec_C01 src t es.
-Proof.
-  exists redir_witness.
-  destruct (parse_model pr0 redir_witness) as [[t es]|] eqn:E; vm_compute in E; [|discriminate].
-  inversion E; subst. eexists; eexists; split; [reflexivity|].
-  intros S. apply check_C01_complete in S. vm_compute in S. discriminate.
-Qed.
 
 (* a | each {|x| put $x 'y' } *)
 Definition example_src : bytes := [97; 32; 124; 32; 101; 97; 99; 104; 32; 123; 124; 120; 124; 32; 112; 117; 116; 32; 36; 120; 32; 39; 121; 39; 32; 125]%N.
